@@ -17,15 +17,17 @@ import (
 
 // Target is one mockable function or method.
 type Target struct {
-	Idx     int
-	Name    string
-	Typ     reflect.Type // type as called (receiver first for methods)
-	Entry   uintptr      // entry address that receives the jump
-	Call    func(form int, a []interface{}) []interface{}
-	MkCb    func(rec *thunk.Rec) interface{}
-	MkOrig  func(rec *thunk.Rec) interface{}
-	Ph      interface{}
-	PhEntry uintptr
+	Idx    int
+	Name   string
+	Typ    reflect.Type // type as called (receiver first for methods)
+	Entry  uintptr      // entry address that receives the jump
+	Call   func(form int, a []interface{}) []interface{}
+	MkCb   func(rec *thunk.Rec) interface{}
+	MkOrig func(rec *thunk.Rec) interface{}
+	// MkOrigLocal: origin-calling callback bound to a fresh placeholder variable (nil where not generated)
+	MkOrigLocal func(rec *thunk.Rec) (interface{}, interface{})
+	Ph          interface{}
+	PhEntry     uintptr
 	// Lookup returns the mocker for this target through builder b; how selects among the
 	// equivalent lookup paths the target supports.
 	Lookup   func(b *mocker.Builder, how int) mocker.ExportedMocker
@@ -51,6 +53,14 @@ type Target struct {
 	// ApplyOnly reports whether lookup path how supports callbacks only (a method VALUE handed to
 	// Func: stubs would be built from the receiver-less type of the value).
 	ApplyOnly func(how int) bool
+	// ArgsUnchecked: a generic target WITH parameters (open finding S12: the hidden dictionary shifts
+	// every declared parameter). It is part of ordinary plans with a reduced oracle - the replacement
+	// runs exactly once instead of the original and results are delivered - so that everything
+	// else about such targets (which entry gets the jump, restore, isolation) is still exercised.
+	ArgsUnchecked bool
+	// FixArgs normalises freshly generated call arguments in place (e.g. replaces a nil receiver the
+	// target cannot be called with); targets that need it are used by world hist only.
+	FixArgs func(a []interface{})
 }
 
 // ueAdapter drives an UnExportedMocker through the ExportedMocker interface the interpreter uses:
@@ -92,6 +102,79 @@ func init() {
 	initMethods()
 	initPkgFuncs()
 	initGenericFuncs()
+	initWrapperMethods()
+}
+
+// PW has a value-receiver method. Its pointer form (*PW).Val is a compiler-generated wrapper that
+// interface dispatch on *PW and the method expression (*PW).Val enter; direct calls p.Val(x) go to
+// PW.Val. Mocking the wrapper (Struct(&PW{}).Method("Val")) must hand the callback the caller's
+// pointer and must leave PW.Val itself alone.
+type PW struct{ A, B, C int }
+
+// Val is the value-receiver method.
+//
+//go:noinline
+func (p PW) Val(x int) int {
+	fn.Ran(95)
+	return p.A*3 + x
+}
+
+var pwExpr = (*PW).Val
+
+type pwValer interface{ Val(int) int }
+
+//go:noinline
+func pwCall(v pwValer, x int) int { return v.Val(x) }
+
+func initWrapperMethods() {
+	const pkg = "github.com/tencent/goom/verifsim/worlds/hist"
+	wr := &Target{Idx: len(Targets), Name: pkg + ".(*PW).Val", Typ: reflect.TypeOf(pwExpr), Entry: reflect.ValueOf(pwExpr).Pointer(),
+		NumHow: 2, Kind: "method", IsMethod: true, NoOrigin: true}
+	wr.MkCb = func(rec *thunk.Rec) interface{} {
+		return func(p *PW, x int) int { return fn.As[int](rec.Enter([]interface{}{p, x})[0]) }
+	}
+	wr.Call = func(form int, a []interface{}) []interface{} {
+		p, x := fn.As[*PW](a[0]), fn.As[int](a[1])
+		if form%2 == 0 {
+			return []interface{}{pwCall(p, x)} // interface dispatch on *PW
+		}
+		return []interface{}{pwExpr(p, x)} // method expression value
+	}
+	wr.Lookup = func(b *mocker.Builder, how int) mocker.ExportedMocker {
+		if how == 1 {
+			return b.Func(pwExpr)
+		}
+		return b.Struct(&PW{}).Method("Val")
+	}
+	wr.SkipRecv = func(how int) bool { return how == 0 }
+	wr.FixArgs = func(a []interface{}) {
+		if fn.As[*PW](a[0]) == nil {
+			a[0] = &PW{A: 1} // a value method cannot be called through a nil pointer
+		}
+	}
+	wr.Ref = func(a []interface{}) []interface{} {
+		return []interface{}{fn.As[*PW](a[0]).A*3 + fn.As[int](a[1])}
+	}
+	wr.RanCount = func() int64 { return fn.RanCount(95) }
+	Targets = append(Targets, wr)
+
+	vt := &Target{Idx: len(Targets), Name: pkg + ".PW.Val", Typ: reflect.TypeOf(PW.Val), Entry: reflect.ValueOf(PW.Val).Pointer(),
+		NumHow: 1, Kind: "method", IsMethod: true, NoOrigin: true}
+	vt.MkCb = func(rec *thunk.Rec) interface{} {
+		return func(p PW, x int) int { return fn.As[int](rec.Enter([]interface{}{p, x})[0]) }
+	}
+	vt.Call = func(form int, a []interface{}) []interface{} {
+		return []interface{}{fn.As[PW](a[0]).Val(fn.As[int](a[1]))}
+	}
+	vt.Lookup = func(b *mocker.Builder, how int) mocker.ExportedMocker { return b.Struct(PW{}).Method("Val") }
+	vt.SkipRecv = func(how int) bool { return true }
+	vt.Ref = func(a []interface{}) []interface{} { return []interface{}{fn.As[PW](a[0]).A*3 + fn.As[int](a[1])} }
+	vt.RanCount = func() int64 { return fn.RanCount(95) }
+	Targets = append(Targets, vt)
+	// the wrapper forwards to PW.Val: while PW.Val is mocked the wrapper's behaviour follows it
+	wr.Mates = []int{vt.Idx}
+	wr.Siblings = []int{vt.Idx}
+	vt.Siblings = []int{wr.Idx}
 }
 
 // GPick is a parameterless generic FUNCTION (generic functions with parameters share open finding
@@ -110,6 +193,15 @@ func GPick[T any]() T {
 		*p = 4242
 	}
 	return z
+}
+
+// GBig is a generic function whose instantiation wrapper has to copy a large stack-passed argument
+// before it calls the shape body (a long wrapper); parameters of generic targets are S12 territory.
+//
+//go:noinline
+func GBig[T any](a fn.S9, b T, c fn.S9) int {
+	fn.Ran(94)
+	return int(a.A + c.I)
 }
 
 func initGenericFuncs() {
@@ -137,6 +229,26 @@ func initGenericFuncs() {
 		func(rec *thunk.Rec) interface{} {
 			return func() int { return fn.As[int](rec.Enter([]interface{}{})[0]) }
 		}, 4242, 93)
+	// GBig[int]: arguments are not compared (S12)
+	big := &Target{Idx: len(Targets), Name: pkg + ".GBig[int]", Typ: reflect.TypeOf(GBig[int]), Entry: reflect.ValueOf(GBig[int]).Pointer(),
+		NumHow: 1, Kind: "func", Generic: true, NoOrigin: true, ArgsUnchecked: true}
+	if img != nil {
+		if e := img.Lookup(pkg + ".GBig[go.shape.int]"); e != 0 {
+			big.Entry = e
+		}
+	}
+	big.MkCb = func(rec *thunk.Rec) interface{} {
+		return func(a fn.S9, b int, c fn.S9) int { return fn.As[int](rec.Enter([]interface{}{a, b, c})[0]) }
+	}
+	big.Call = func(form int, a []interface{}) []interface{} {
+		return []interface{}{GBig[int](fn.As[fn.S9](a[0]), fn.As[int](a[1]), fn.As[fn.S9](a[2]))}
+	}
+	big.Lookup = func(b *mocker.Builder, how int) mocker.ExportedMocker { return b.Func(GBig[int]) }
+	big.Ref = func(a []interface{}) []interface{} {
+		return []interface{}{int(fn.As[fn.S9](a[0]).A + fn.As[fn.S9](a[2]).I)}
+	}
+	big.RanCount = func() int64 { return fn.RanCount(94) }
+	Targets = append(Targets, big)
 }
 
 // localFoo lives in the package that calls goom (this one): Builder.ExportFunc("localFoo") without
@@ -335,7 +447,7 @@ func initMethods() {
 func initFuncs() {
 	for _, f := range thunk.Funcs {
 		f := f
-		t := &Target{Idx: len(Targets), Name: f.Name, Typ: f.Typ, Entry: f.Entry, Call: f.Call, MkCb: f.MkCb, MkOrig: f.MkOriginCb,
+		t := &Target{Idx: len(Targets), Name: f.Name, Typ: f.Typ, Entry: f.Entry, Call: f.Call, MkCb: f.MkCb, MkOrig: f.MkOriginCb, MkOrigLocal: f.MkOriginLocal,
 			Ph: f.Ph, PhEntry: f.PhEntry, NumHow: 1, Kind: "func"}
 		t.Lookup = func(b *mocker.Builder, how int) mocker.ExportedMocker { return b.Func(f.Fn) }
 		t.Ref = func(args []interface{}) []interface{} { return fn.Compute(f.Idx, f.Typ, args) }
